@@ -28,7 +28,7 @@ RULE = ("E2: breadth-first search over operation histories of real Bec2File obje
         "either): rejected with both decryptors, accepted with one decryptor iff the body matches that block's key; ('multisplice', ...) headers of 2..3 blocks INCLUDING several blocks of the same tag (two ECC blocks for different selectors, two customer-key blocks, ...) x every assignment of two keys: accepted exactly when all blocks agree."
         " Spliced headers are read with and without MAC checking (agreement of the blocks does not depend on it); the caller's encryptor lists start with the selector-2 entry so that selector 0 is never matched by position."
         ' TLA+ cross-check: models/bec2header.tla describes the header reader as a state machine (blocks in file order, decrypt where a decryptor exists, agreed key, mismatch / no key / bad MAC / accepted); TLC enumerates EVERY behaviour (all headers of up to 2 blocks, thorough 3, over {cust, ecc, upd} x {k1, k2}, every decryptor subset, both body keys) and each one is replayed on the real reader with reference-built headers and decryptor subclasses that record their calls: outcome, session key and the order of decrypt calls must conform.'
-        " ('recipients', sequence): several files written in ONE process to different key pairs of the SAME selector (explicit A, explicit B, published default) - each file's blocks must wrap that file's key for that file's recipient; multisplice headers are also read with the decryptors given as a one-shot iterator. Explicitly supplied session-key value classes (00..00 = the library's default constant, ff..ff, 00..01, 01 00.., half zero) x 4 block sets: write, independent unwrap, component under that key, read back, write again; the reads of the state search unwrap with the history's long-lived encryptor objects.")
+        " ('recipients', sequence): several files written in ONE process to different key pairs of the SAME selector (explicit A, explicit B, published default) - each file's blocks must wrap that file's key for that file's recipient; multisplice headers are also read with the decryptors given as a one-shot iterator. Explicitly supplied session-key value classes (00..00 = the library's default constant, ff..ff, 00..01, 01 00.., half zero) x 4 block sets: write, independent unwrap, component under that key, read back, write again; the reads of the state search unwrap with the history's long-lived encryptor objects. Re-key of an object that holds kept (unopened) blocks: the write must be refused. The canonical state carries what the object looked like at its last write.")
 ASSUMPTIONS = [
     "canonical-state merging assumes operations depend only on the hashed fields plus the randomness stream; hidden library-global state is still "
     "caught because every check is phrased per transition (draws consumed by this operation, points new in this history)",
@@ -83,6 +83,7 @@ class St:
         self.keys = []                # session keys of all objects created in this history
         self.points = []              # ephemeral points of all packed ECC blocks in this history
         self.encs = encryptors()      # the caller's encryptor objects live as long as the history (as in the appnotes)
+        self.wsnap = [None, None]     # per slot: what the object looked like when it was last written (anything a write leaves on it dates from then)
         self.keptkey = [None, None]   # per slot: the key those kept blocks wrap, once the content moved into a file with another key
         self.kept = [set(), set()]    # per slot: tags of blocks the last Read had no decryptor for (must be kept byte-for-byte)
         self.prov = ["fresh", "fresh"]  # per slot: were the component objects built by the caller or by the reader?
@@ -103,7 +104,7 @@ def canon(st):
             out.append(None)
             continue
         blocks = tuple((b.tag, type(b).__name__, getattr(b, "key_selector", None)) for b in o.auth_blocks.values())
-        out.append((st.origin[i], blocks, st.texts[i] is not None, tuple(sorted(st.kept[i])), st.prov[i],
+        out.append((st.origin[i], blocks, st.texts[i] is not None, st.wsnap[i], tuple(sorted(st.kept[i])), st.prov[i],
                     bool(st.kept[i]) and st.keptkey[i] is not None and st.keptkey[i] != o.session_key))
     return tuple(out)
 
@@ -164,6 +165,7 @@ def step(st, op):
         st.objs[slot], st.texts[slot], st.raws[slot], st.cur = b, None, None, slot
         st.kept[slot] = set()
         st.keptkey[slot] = None
+        st.wsnap[slot] = None
         st.prov[slot] = "fresh"
         return st, o
     if kind == "rekey":
@@ -178,6 +180,7 @@ def step(st, op):
         if st.kept[i] and st.keptkey[i] is None:
             st.keptkey[i] = obj.session_key
         st.objs[i] = Bec2File(obj.bf3file, list(obj.auth_blocks.values()), session_key=newkey)
+        st.wsnap[i] = None
         st.origin[i] = "K%d" % op[1]
         st.texts[i] = None
         st.raws[i] = None
@@ -221,6 +224,7 @@ def step(st, op):
         binary = bytes.fromhex("".join(text.split("\n\n", 1)[1].split()))
         check_written(st, i, obj, binary, rnd, o)
         st.texts[i] = text
+        st.wsnap[i] = (st.origin[i], tuple((b.tag, type(b).__name__, getattr(b, "key_selector", None)) for b in obj.auth_blocks.values()))
         return st, o
     if kind == "read":
         if st.texts[i] is None:
@@ -251,6 +255,7 @@ def step(st, op):
                 g != e for g, e in zip(got_types, exp_types) if e[1] != "UnknownAuthBlock"):
             o.viol("read|blocks", "blocks read as %r, expected %r" % (got_types, exp_types))
         st.objs[i] = r
+        st.wsnap[i] = None
         st.prov[i] = "read"
         st.kept[i] = {t for t in obj.auth_blocks if KINDS[t] not in D}
         st.keptkey[i] = None
